@@ -171,6 +171,9 @@ def gen_cases(ctx, P, count, with_seq):
     rng = ctx.rng; cases = []
     for k in range(count):
         solver = rng.choice((["rs", "rs", "sa"] if with_seq else []) + ["prs", "prs", "prs", "psa"])
+        # two cases of every run are pinned to the generator classes of the two known stagnation findings
+        force = {(2, 0): "pb", (2, 1): "rb", (3, 0): "pb", (4, 1): "rb"}.get((P, k))
+        if force: solver = "prs"
         r = rng.random()
         kind = "lap" if r < 0.3 else "grid" if r < 0.5 else "convdiff" if r < 0.7 else "decoupled" if r < 0.93 else "diag"
         r = rng.random()
@@ -180,10 +183,10 @@ def gen_cases(ctx, P, count, with_seq):
         if tiny and kind in ("grid", "convdiff", "decoupled"): kind = "lap"
         T, n, info = gen_matrix(rng, kind, n)
         rb_part = None
-        if solver in ("prs", "psa") and rng.random() < 0.07:
+        if solver in ("prs", "psa") and (rng.random() < 0.07 or force == "rb"):
             T, n, rb_part = redblack(rng, rng.choice([P, P + 1, 8, 12, rng.randint(4, 40)]), P); info = "redblack"; tiny = False
         pb_part = None
-        if solver == "prs" and P >= 2 and rng.random() < 0.05:
+        if solver == "prs" and P >= 2 and force != "rb" and (rng.random() < 0.05 or force == "pb"):
             T, n, pb_part = pairs_boundary(rng, P); info = "pairs_boundary"; tiny = False
         if tiny:
             max_coarse = rng.choice([n, n, n + 1, max(1, n - 1), 50])
@@ -207,9 +210,11 @@ def gen_cases(ctx, P, count, with_seq):
         if solver in ("prs", "psa"): tap = rng.choice([-1, -1, 0, 0, 1, 2])
         part = gen_partition(rng, n, P) if solver in ("prs", "psa") else None
         if info == "redblack": part = rb_part; max_coarse = rng.choice([1, 2, max(1, n // 4)])
+        if force == "rb": coarsen = 0; solver = "prs"; max_levels = 25; theta = "1/4"; strength = 0; nvars = 1
         if info == "pairs_boundary":
             part = pb_part; max_coarse = 1; theta = "1/4"; strength = 0; nvars = 1; coarsen = rng.choice([2, 2, 0, 1, 3, 4])
             max_levels = rng.choice([5, 8, 25])
+            if force == "pb": coarsen = 2
         lit = [n, n] + ([0] if part is None else [P] + part + part) + [len(T)]
         for (i, j, v) in T: lit += [i, j, nums.tok_num(v)]
         cid = "p%dc%d" % (P, k)
